@@ -101,7 +101,7 @@ fn prefix_len(arg: u8) -> usize {
 
 /// `pre_len`: output length before the call; `want`: reference index of the requested opcode;
 /// `rewritten`: a post-emission rewrite (unsafe TypeConfusion) is possible in this instance
-pub fn check_emission(g: &Generator, p: u8, want: usize, exact: usize, m: usize, rewritten: bool, maxline: usize) {
+pub fn check_emission(g: &Generator, p: u8, want: usize, exact: usize, m: usize, rewritten: bool, maxline: usize) -> Lexeme {
     let olen = g.output.len();
     assert!(olen > 2 && olen <= BUFL, "exactly one opcode is appended per emission");
     let mut buf = [0u8; BUFL];
@@ -170,8 +170,8 @@ pub fn check_emission(g: &Generator, p: u8, want: usize, exact: usize, m: usize,
             }
         }
     }
+    l
 }
-
 pub fn any_rate() -> f64 {
     let r: f64 = kani::any();
     kani::assume(r >= 0.0 && r <= 1.0);
